@@ -35,4 +35,9 @@ E1Programs(k) ==
 \* the same programs under small created-fact limits (LimitTrip enabled)
 ProgramsLimit == {[p EXCEPT !.limit = l] : p \in E1Programs(1) \cup {LostJoin, TwoCounts, RecAgg}, l \in {1, 3}}
 ProgramsSmall == E1Programs(1) \cup {LostJoin, TwoCounts, RecAgg}
+\* incremental evaluation: the base facts arrive in two batches (every split into two non-empty parts),
+\* EvalProgram runs after each; positive programs only are judged (T01i)
+Splits(e) == {s \in SUBSET e : s # {} /\ s # e}
+ProgramsIncr == UNION {{[rules |-> p.rules, edb |-> s, edb2 |-> p.edb \ s, limit |-> 0] : s \in Splits(p.edb)} :
+                   p \in {q \in E1Programs(1) \cup {LostJoin} : Positive(q.rules)}}
 =============================================================================
